@@ -124,7 +124,49 @@ def c06(run):
     session(run, {"flag", "fresh"})
 
 
-PROPS = {"C01": c01, "C02": c02, "C06": c06, "C04": c04, "C12": c12, "C13": c13, "C14": c14}
+def c03(run):
+    run.sites = {"translit", "panic"}
+    q = run.quick()
+    wl, al, cl = (6, 4, 2) if q else (7, 5, 3)
+    for name, mode, n, workers in (("MC_Split_wrapped", "wrapped", wl, 4), ("MC_Split_any", "any", al, 4), ("MC_Split_chars", "chars", cl, 4)):
+        tlc, s = run_tlc_replay(run, name, "MC_Split.tla",
+                                dict(spec="Spec", constants={"MaxLen": n, "Mode": '"%s"' % mode},
+                                     invariants=["Structural", "WrappedAgrees", "ColonShrinks", "SmartQuoteLocal", "Emit"]),
+                                "C03", workers=workers, threads=8)
+        run.add(tlc, s)
+    run.rule = ("TLC enumerates every class string (letter, digit, punctuation, quote, colon, back-tick, other symbol) up to length %d, checks "
+                "ImplSplit = PropSplit on wrapped alphanumeric words plus structural invariants, and emits one scenario per string; the harness "
+                "concretises each class (canonical / swept / random member, 2-3 variants), types the text and compares the lonely suggestion with "
+                "okkhor(P)+okkhor(W)+okkhor(Q) (suggestions off, 2 configs); with suggestions on (3 configs: English/smart quotes/ANSI) the same "
+                "transliteration must be a candidate modulo curling: class strings to length %d and EVERY string over the 94 typeable characters "
+                "to length %d.  Non-trivial = every scenario with at least one transliteration comparison." % (wl, al, cl))
+    run.assumptions += ["the transliteration function itself is the okkhor public parser (oracle named by the statement)",
+                        "class uniformity is tested by the swept/random variants, not assumed; for non-wrapped strings the split of the transcript is the definition"]
+
+
+def c17(run):
+    run.sites = {"curl", "panic"}
+    n = 5 if run.quick() else 7
+    for m in ("phonetic", "fixed"):
+        tlc, s = run_tlc_replay(run, "MC_Quote_" + m, "MC_Quote.tla",
+                                dict(spec="Spec", constants={"MaxLen": n if m == "phonetic" else n, "Method": '"%s"' % m}, invariants=["Emit"]),
+                                "C17", workers=4, threads=8)
+        run.add(tlc, s)
+    tlc, s = run_tlc_replay(run, "MC_Split_design", "MC_Split.tla",
+                            dict(spec="Spec", constants={"MaxLen": 5 if run.quick() else 6, "Mode": '"design"'},
+                                 invariants=["Structural", "SmartQuoteLocal"]), "C17", workers=4, threads=1)
+    run.add(tlc, None)
+    run.rule = ("TLC enumerates every class string up to length %d over {letter, quote, other punctuation, colon, back-tick} (phonetic) / "
+                "{consonant, quote, punctuation, colon} (fixed, bundled layout) containing a quote, computes the split that defines the wrapping and emits a "
+                "scenario with paired contexts differing only in the smart-quote option (English on + ANSI off, and English off + ANSI on); the harness "
+                "types 2 concretisations per string and requires: same kind/length/preselection; punctuation-only text and the raw typed text identical; "
+                "every other candidate = the OFF candidate with the quotes of its leading/trailing punctuation curled (opening/closing).  "
+                "SmartQuoteLocal is checked on the model for all class strings.  Non-trivial = every compared pair." % n)
+    run.assumptions += ["the split defining 'wrapping' is the transcript's (Split.ImplSplit), the same for both contexts of a pair",
+                        "contexts are pooled (suggestions on need the dictionary); a mismatch is confirmed on brand-new contexts before it is reported"]
+
+
+PROPS = {"C01": c01, "C03": c03, "C17": c17, "C02": c02, "C06": c06, "C04": c04, "C12": c12, "C13": c13, "C14": c14}
 
 
 def replay_file(run, path):
